@@ -26,6 +26,10 @@ def search(starts, *, stop=None, avoid_node=None, avoid_edge=None, exc='*', weak
     avoid_edge(e): do not follow e.
     stop(n): n is recorded as visited but not expanded.
     """
+    starts = list(starts)
+    cfg = next((getattr(s, 'cfg', None) for s in starts if getattr(s, 'cfg', None) is not None), None)
+    if cfg is not None and cfg.flags:
+        return _search_flags(cfg, starts, stop=stop, avoid_node=avoid_node, avoid_edge=avoid_edge, exc=exc, weak=weak, edge_ok=edge_ok)
     seen = set()
     parent = {}
     q = deque()
@@ -53,6 +57,82 @@ def search(starts, *, stop=None, avoid_node=None, avoid_edge=None, exc='*', weak
             seen.add(d)
             parent[d] = e
             q.append(d)
+    return seen, parent
+
+
+def _plain_reach(cfg, avoid_edge):
+    seen = {cfg.entry}
+    q = deque([cfg.entry])
+    while q:
+        n = q.popleft()
+        for e in n.succ:
+            if avoid_edge(e) or e.dst in seen:
+                continue
+            seen.add(e.dst)
+            q.append(e.dst)
+    return seen
+
+
+def _decided_at(cfg, node):
+    """What is known about the flags of *cfg* when control is at *node*: a flag is True (False) there when every way from the entry to the node leaves one of the
+    flag's tests by its true (false) edge."""
+    cache = getattr(cfg, '_decided_cache', None)
+    if cache is None:
+        cache = cfg._decided_cache = {}
+        for nm, ts in cfg.flags.items():
+            tset = set(ts)
+            cache[nm] = (_plain_reach(cfg, lambda e: e.src in tset and e.kind == 'T'), _plain_reach(cfg, lambda e: e.src in tset and e.kind == 'F'))
+    out = set()
+    for nm, (without_T, without_F) in cache.items():
+        if node not in without_T and node in without_F:
+            out.add((nm, True))
+        elif node not in without_F and node in without_T:
+            out.add((nm, False))
+    return frozenset(out)
+
+
+def _search_flags(cfg, starts, *, stop, avoid_node, avoid_edge, exc, weak, edge_ok):
+    """search() over (node, decided flags) states: a test of a flag whose value is already decided on this way is left only by the matching edge.  Returns the
+    node-level view (visited nodes; for each node the edge by which it was first reached)."""
+    seen_states = set()
+    seen = set()
+    parent = {}
+    q = deque()
+    for s in starts:
+        st = (s, _decided_at(cfg, s))
+        if st not in seen_states:
+            seen_states.add(st)
+            seen.add(s)
+            q.append(st)
+    while q:
+        n, dec = q.popleft()
+        if stop is not None and stop(n) and n not in starts:
+            continue
+        for e in n.succ:
+            if edge_ok is not None:
+                if not edge_ok(e):
+                    continue
+            elif not default_edge_ok(e, exc, weak):
+                continue
+            if avoid_edge is not None and avoid_edge(e):
+                continue
+            dec2 = dec
+            if n.flag is not None and e.kind in ('T', 'F'):
+                val = e.kind == 'T'
+                if (n.flag, not val) in dec:
+                    continue
+                dec2 = dec | {(n.flag, val)}
+            d = e.dst
+            if avoid_node is not None and avoid_node(d):
+                continue
+            st = (d, dec2)
+            if st in seen_states:
+                continue
+            seen_states.add(st)
+            if d not in seen:
+                seen.add(d)
+                parent[d] = e
+            q.append(st)
     return seen, parent
 
 
